@@ -51,7 +51,10 @@ def mk(kind):
         return h.dict_(pairs)
     def grid(h, l):
         rows = [[(b'a', h.num(fnn(h.ex, l)))]] if h.ex.pick(2) else []
-        return h.grid(None, [(b'a', None)], rows)
+        # column meta and grid meta take part in ==, cmp and hash alike
+        cm = [None, [(b'x', h.marker())], [(b'x', h.num(fnn(h.ex, l)))]][h.ex.pick(3)]
+        gm = [(b'm', h.marker())] if h.ex.pick(2) else None
+        return h.grid(gm, [(b'a', cm)], rows)
     table = {
         'num': num, 'coord': lambda h, l: h.coord(fnn(h.ex, l), fnn(h.ex, l)), 'ref': ref,
         'str': lambda h, l: h.str_(ascii1(l)), 'uri': lambda h, l: h.uri(ascii1(l)), 'sym': lambda h, l: h.sym(ascii1(l)),
@@ -149,7 +152,7 @@ KANI = ['coord_eq_hash', 'coord_ord', 'coord_transitive']
 def run(ctx):
     prog = load.program(ctx.repo, ctx.cache)
     T = templates(ctx)
-    ctx.cov['bounds'] = {'strings': '1 symbolic printable ASCII byte', 'collections': '<= 2 list elements, dict keys from {a,b,c}, grid <= 1 row',
+    ctx.cov['bounds'] = {'strings': '1 symbolic printable ASCII byte', 'collections': '<= 2 list elements, dict keys from {a,b,c}, grid <= 1 row, column meta absent / marker / number, grid meta absent / marker',
                          'floats': 'all non-NaN f64 bit patterns (z3 FP / CBMC)', 'zones': 'UTC, Etc/GMT-1, Etc/GMT+1'}
     S = sym.explore_templates(ctx, __import__('props.C12', fromlist=['x']), T, prog, split_depth=4, budget_s=240 if ctx.quick() else 1500)
     sym.native_check(ctx, S)
